@@ -11,7 +11,7 @@
     Nothing else is assumed about [iso]: in particular the theorems cover the transitivity shortcut of the code
     (an item is compared only with the FIRST member of each class / with one stored template per class). *)
 From Coq Require Import List NArith ZArith Bool Arith Permutation.
-From SK Require Import lib.LGraph lib.C13_Partition model.C13_Model proof.C13_Proof proof.C13_More proof.C13_Iso.
+From SK Require Import lib.LGraph lib.C13_Partition model.C13_Model proof.C13_Proof proof.C13_More proof.C13_Iso proof.C13_Templates.
 Import ListNotations.
 
 (** 1. GraphCluster.fit / iterative_cluster: every item gets exactly one class (the list of classes has the length
@@ -239,3 +239,51 @@ Theorem C13_batch_any_order_graphs :
      isomorphic labelled defs (it_graph x) (it_graph y)).
 Proof. exact (fun labelled defs mode data data' bs picks => batch_any_order_graphs labelled defs mode data data' bs picks). Qed.
 Print Assumptions C13_batch_any_order_graphs.
+
+(** ** 7. the STATE carried across calls (the template list).  BatchCluster.fit from no templates -- whichever path it
+    takes: one-shot GraphCluster + one sampled representative per class, or lib_check over the batches -- writes the
+    class numbers of GraphCluster.fit and returns templates that (a) are coherent, (b) are processed items with the
+    class they received, and (c) when the sampler's choices are in range (random.sample always is; they are an INPUT
+    of the model) represent every processed item by an isomorphic template carrying its class. *)
+Theorem C13_fit_templates :
+  forall (iso : item -> item -> bool) (mode : attr_mode) (D : item -> Prop),
+  (forall x, D x -> iso x x = true) ->
+  (forall x y, D x -> D y -> iso x y = true -> iso y x = true) ->
+  (forall x y z, D x -> D y -> D z -> iso x y = true -> iso y z = true -> iso x z = true) ->
+  (forall x y, D x -> D y -> iso x y = true -> gc_key mode x = gc_key mode y) ->
+  forall (data : list item) (bs : option nat) (picks : list nat),
+  Forall D data -> match bs with None => True | Some b => 1 <= b end ->
+  let cs := fst (fit iso mode data [] bs picks) in
+  let ts := snd (fit iso mode data [] bs picks) in
+  cs = map class_z (gc_fit iso mode data) /\
+  (Forall D (map fst ts) /\
+   forall t t', In t ts -> In t' ts -> (iso (fst t) (fst t') = true <-> snd t = snd t')) /\
+  (forall t, In t ts -> exists i, nth_error data i = Some (fst t) /\ nth_error cs i = Some (snd t)) /\
+  (Forall2 (fun k p => p < length (members data (map class_z (gc_fit iso mode data)) k))
+           (first_keys [] (map class_z (gc_fit iso mode data))) picks ->
+   forall i x, nth_error data i = Some x ->
+   exists t, In t ts /\ iso (fst t) x = true /\ nth_error cs i = Some (snd t)).
+Proof. exact fit_templates. Qed.
+Print Assumptions C13_fit_templates.
+
+(** the incremental clause end to end: a NEW item classified against the templates an earlier fit returned gets the
+    class of exactly the earlier items it is isomorphic to; isomorphic to none of them, it gets a class number no
+    earlier item has and is appended as the representative of that class *)
+Theorem C13_fit_then_lib_check :
+  forall (iso : item -> item -> bool) (mode : attr_mode) (D : item -> Prop),
+  (forall x, D x -> iso x x = true) ->
+  (forall x y, D x -> D y -> iso x y = true -> iso y x = true) ->
+  (forall x y z, D x -> D y -> D z -> iso x y = true -> iso y z = true -> iso x z = true) ->
+  (forall x y, D x -> D y -> iso x y = true -> gc_key mode x = gc_key mode y) ->
+  forall (data : list item) (bs : option nat) (picks : list nat) (y : item),
+  Forall D data -> match bs with None => True | Some b => 1 <= b end ->
+  Forall2 (fun k p => p < length (members data (map class_z (gc_fit iso mode data)) k))
+          (first_keys [] (map class_z (gc_fit iso mode data))) picks ->
+  D y ->
+  let cs := fst (fit iso mode data [] bs picks) in
+  let ts := snd (fit iso mode data [] bs picks) in
+  let c := fst (lib_check iso mode y ts) in
+  (forall i x, nth_error data i = Some x -> (nth_error cs i = Some c <-> iso x y = true)) /\
+  ((forall x, In x data -> iso x y = false) -> ~ In c cs /\ snd (lib_check iso mode y ts) = ts ++ [(y, c)]).
+Proof. exact fit_then_lib_check. Qed.
+Print Assumptions C13_fit_then_lib_check.
